@@ -159,7 +159,10 @@ def define_adhoc(spec, dead=None):
     names = sorted(spec["attrs"])
     for k in names:
         v = spec["attrs"][k]
-        attrs[k] = _tuple_at(v, dead) if isinstance(v, list) else v
+        if isinstance(v, list) and v and v[0] in ("bytes", "builtin", "str"):
+            attrs[k] = rebuild(v)          # e.g. a ciphersuite's DST or hash function
+        else:
+            attrs[k] = _tuple_at(v, dead) if isinstance(v, list) else v
     cls = None
     if dead:
         # object identity is a simulator decision too (fault kind F5): try to
@@ -322,6 +325,8 @@ def _canon(o, depth, stack):
         return ["float", repr(o)]
     if t is bytearray:
         return ["bytearray", bytes(o).hex()]
+    if t is memoryview:
+        return ["memoryview", bytes(o).hex()]
     if depth > MAX_DEPTH:
         return ["deep", _typename(t)]
     oid = id(o)
@@ -452,6 +457,8 @@ def rebuild(c):
         return bytes.fromhex(c[1])
     if tag == "bytearray":
         return bytearray(bytes.fromhex(c[1]))
+    if tag == "memoryview":
+        return memoryview(bytes.fromhex(c[1]))
     if tag == "str":
         return c[1]
     if tag == "float":
